@@ -155,6 +155,7 @@ type Sim struct {
 	waiters map[*waiter]struct{}
 	gated   []*gateEntry
 	lastRun uint64
+	driver  uint64 // goroutine that created the simulation and drives the event loop
 
 	// Wait is the quiescence barrier (synctest.Wait). Set by the harness.
 	Wait func()
@@ -162,6 +163,9 @@ type Sim struct {
 	AdvanceClock func(d time.Duration)
 	// OnTrace receives trace lines (optional).
 	OnTrace func(string)
+	// HoldSettle > 0 turns Settle into a no-op (driver only): used to start several
+	// operations before the scheduler lets any of them run.
+	HoldSettle int
 }
 
 var cur atomic.Pointer[Sim]
@@ -181,6 +185,7 @@ func New(cfg Config) *Sim {
 		AdvanceClock: func(time.Duration) {
 		},
 	}
+	s.driver = goid()
 	cur.Store(s)
 	return s
 }
@@ -308,6 +313,9 @@ func (s *Sim) RunFor(d time.Duration) { s.RunUntil(s.Now() + d) }
 // Settle waits for quiescence. With gating on it repeatedly releases one gated
 // goroutine (chosen by the schedule PRNG) and waits again until no goroutine is gated.
 func (s *Sim) Settle() {
+	if s.HoldSettle > 0 {
+		return // several actions are being released together; the caller settles once afterwards
+	}
 	for {
 		s.Wait()
 		if !s.releaseOneGated() {
